@@ -125,6 +125,28 @@ def divides_other(a, arts):
   return any(o is not a and o.meta.get('n') and o.meta['n'] != n and o.meta['n'] % n == 0 for o in arts)
 
 
+class CallDidNotReturn(Exception):
+  """A library call exceeded VERIF_CALL_TIMEOUT seconds (default 1500; the slowest legitimate call takes about a minute)."""
+
+
+def _with_deadline(fn):
+  import os
+  import signal
+  import threading
+  limit = int(os.environ.get('VERIF_CALL_TIMEOUT', '1500'))
+  if threading.current_thread() is not threading.main_thread() or limit <= 0:
+    return fn()
+  def on_alarm(signum, frame):
+    raise CallDidNotReturn('no return after %d s' % limit)
+  old = signal.signal(signal.SIGALRM, on_alarm)
+  signal.alarm(limit)
+  try:
+    return fn()
+  finally:
+    signal.alarm(0)
+    signal.signal(signal.SIGALRM, old)
+
+
 def record_call(sid, kind, arts, fn, checks=None, crit=None, libversion=None, extra=None):
   """Runs fn() (a check call on [a.proto for a in arts]) and returns the transition record.
 
@@ -140,7 +162,7 @@ def record_call(sid, kind, arts, fn, checks=None, crit=None, libversion=None, ex
   if extra:
     rec.update(extra)
   try:
-    ret = fn()
+    ret = _with_deadline(fn)
     rec['ret'] = bool(ret)
     rec['ret_is_bool'] = isinstance(ret, bool)
   except Exception as e:  # pylint: disable=broad-except
